@@ -12,6 +12,7 @@ import (
 	"verif/internal/load"
 	"verif/internal/report"
 	"verif/internal/small"
+	"verif/internal/visitors"
 	"verif/internal/yacc"
 )
 
@@ -176,6 +177,13 @@ func init() {
 		extendProp(id, us, []report.Floor{{Rule: "unget-spec", What: "constants", Min: 2}}, func(c *Ctx) { defer c.cleanup(); c.scanRun("unget-spec") })
 	}
 	extendProp("C03", ns, []report.Floor{{Rule: "num-spec", What: "number-blocks", Min: 4}}, func(c *Ctx) { defer c.cleanup(); c.scanRun("num-spec") })
+	extendProp("C17", "insert-spec: the helper with which the formatter puts generated statements into a statement list is evaluated from source (slices with shared backing arrays and capacities) on every list of up to four elements with up to two elements of spare capacity, every position and one or two new elements; the result must be list[:at] ++ new ++ list[at:] (round 6 seed C17-18: the two copies of the in-place branch swapped).",
+		[]report.Floor{{Rule: "insert-spec", What: "helpers", Min: 1}, {Rule: "insert-spec", What: "scenarios", Min: 10}},
+		func(c *Ctx) {
+			if p, _, ok := c.RepoProgram(false); ok {
+				c.Add(visitors.InsertSpec(p, "pkg/visitor/formatter"))
+			}
+		})
 	extendProp("C14", "presence-oracle: which slots of which node kinds a silently parsed tree may leave empty equals the reviewed table - a name node's kind is told by its tokens (a NameRelative has its `namespace` keyword, a NameFullyQualified its leading separator), and the resolver chooses the rule by kind (seed C14-13: `\\Vendor\\X` in a PHP 5 constant expression built as a NameRelative without the keyword, resolved against the current namespace).",
 		[]report.Floor{{Rule: "presence-oracle", What: "slots", Min: 1100}},
 		func(c *Ctx) { defer c.cleanup(); c.presenceOracle() })
